@@ -302,6 +302,26 @@ def rule_ordered(ctx: Ctx) -> None:
                       f"iterates {ast.unparse(it)[:50]} : {t or 'untyped'}",
                       f"iteration over a set ({t}) decides an order on the dispatch path: results depend on the hash seed")
     ctx.floor("C03.5", "iterations on the dispatch path", n, 6)
+    # no ordering decision on the dispatch / matching path is keyed by a per-run random identifier (order and loan ids are uuid4, id() and
+    # hash() vary between runs): competing orders would be matched in a different order on every run
+    n_sorts = 0
+    for q in NO_SET_ITER:
+        fn = ctx.func(q)
+        for c in A.func_calls(fn, shallow=False):
+            nm = A.call_name(c) or ""
+            if not (nm in ("sorted", "min", "max") or nm.endswith(".sort")):
+                continue
+            key = A.kw(c, "key")
+            if key is None:
+                continue
+            n_sorts += 1
+            body = key.body if isinstance(key, ast.Lambda) else key
+            rnd = [x for x in ast.walk(body) if (isinstance(x, ast.Attribute) and (x.attr in ("id", "_id") or x.attr.endswith("_id")))
+                   or (isinstance(x, ast.Call) and A.call_name(x) in ("id", "hash", "uuid.uuid4", "random.random"))]
+            ctx.check(not rnd, "C03.5", "no ordering on the dispatch/matching path is keyed by a per-run identifier", fn, c,
+                      f"key {ast.unparse(key)[:50]}", f"'{ast.unparse(c)[:70]}' orders by {ast.unparse(rnd[0]) if rnd else ''}: ids are uuid4 values, so the order in which "
+                      "competing orders are matched (and who gets the limited liquidity or funds) changes from run to run")
+    ctx.count("C03.5:keyed orderings on the dispatch path", n_sorts)
 
 
 def rule_uniform_start(ctx: Ctx) -> None:
